@@ -427,7 +427,7 @@ func c14r2(c *core.Ctx) {
 								// list and parameter kind must match
 								if as != "nil" {
 									isRemoveField := strings.HasSuffix(fieldKeyOf(m, a.expr), ".remove")
-									isRemovePar := pname == "rem" || pname == "remove"
+									isRemovePar := idListIsRemove(m, cal, i, pname)
 									if isRemoveField != isRemovePar {
 										all = false
 									}
@@ -454,14 +454,14 @@ func c14r2(c *core.Ctx) {
 				// the id list must go to the add/ids parameter, the remove list to the remove parameter
 				if okArg && s != "nil" {
 					isRemoveField := strings.HasSuffix(fieldKeyOf(m, arg), ".remove")
-					isRemovePar := pname == "rem" || pname == "remove"
+					isRemovePar := idListIsRemove(m, cal, i, pname)
 					onlyIDParam := 0
 					for pi := 0; pi < cal.Sig.Params().Len(); pi++ {
 						if sl2, ok := cal.Sig.Params().At(pi).Type().(*types.Slice); ok && core.NamedName(sl2.Elem()) == "ID" {
 							onlyIDParam++
 						}
 					}
-					if onlyIDParam == 1 && (isRemovePar || pname == "ids") && (strings.Contains(strings.ToLower(cal.Name), "remove")) {
+					if onlyIDParam == 1 && (isRemovePar || (pname == "ids" && strings.Contains(strings.ToLower(cal.Name), "remove"))) {
 						// a pure removal: Map removes its own ids; Exchange removes its remove list
 						okArg = strings.HasPrefix(recv, "Exchange") == isRemoveField
 					} else if isRemoveField != isRemovePar {
@@ -960,3 +960,76 @@ func c14r6(c *core.Ctx) {
 
 // exprChainAny returns e itself (helper for allocation expressions that need no function context).
 func exprChainAny(m *core.Model, e ast.Expr) []ast.Expr { return []ast.Expr{m.StripConv(e)} }
+
+// idListRole says what an id-list parameter of an internal operation is used for, from what is done with its
+// elements: "remove" when the loop over it (in the function or in a callee it is handed to) clears bits of a mask,
+// "add" when it sets them, "" when neither is seen.
+func idListRole(m *core.Model, g *core.Func, i int, depth int) string {
+	if g == nil || g.Body == nil || g.Sig == nil || i >= g.Sig.Params().Len() || depth > 4 {
+		return ""
+	}
+	par := g.Sig.Params().At(i)
+	isPar := func(e ast.Expr) bool {
+		id := identOf(m.StripConv(e))
+		return id != nil && m.Info.ObjectOf(id) == types.Object(par)
+	}
+	role := ""
+	core.InspectNoLits(g.Body, func(n ast.Node) bool {
+		if role != "" {
+			return false
+		}
+		if rs, ok := n.(*ast.RangeStmt); ok && isPar(rs.X) {
+			ast.Inspect(rs.Body, func(x ast.Node) bool {
+				call, ok := x.(*ast.CallExpr)
+				if !ok || role != "" {
+					return true
+				}
+				if k, cal, _ := m.Callee(call); k == core.CallStatic && cal != nil && cal.Body != nil && strings.HasPrefix(cal.Recv, "bitMask") {
+					ast.Inspect(cal.Body, func(y ast.Node) bool {
+						if as, ok := y.(*ast.AssignStmt); ok {
+							switch as.Tok {
+							case token.AND_NOT_ASSIGN:
+								role = "remove"
+							case token.OR_ASSIGN:
+								if role == "" {
+									role = "add"
+								}
+							}
+						}
+						return true
+					})
+				}
+				return true
+			})
+		}
+		return true
+	})
+	if role != "" {
+		return role
+	}
+	core.InspectNoLits(g.Body, func(n ast.Node) bool {
+		if call, ok := n.(*ast.CallExpr); ok && role == "" {
+			if k, cal, _ := m.Callee(call); k == core.CallStatic && cal != nil && cal != g {
+				for j, a := range call.Args {
+					if isPar(a) {
+						if r := idListRole(m, cal, j, depth+1); r != "" {
+							role = r
+						}
+					}
+				}
+			}
+		}
+		return true
+	})
+	return role
+}
+
+func idListIsRemove(m *core.Model, cal *core.Func, i int, pname string) bool {
+	switch idListRole(m, cal, i, 0) {
+	case "remove":
+		return true
+	case "add":
+		return false
+	}
+	return pname == "rem" || pname == "remove"
+}
